@@ -179,7 +179,7 @@ inductive HStep where
   | madeOptional (chunk pos : Nat)
   | removed (name : Bytes)
   | unknown
-deriving Repr
+deriving Repr, DecidableEq
 
 /-- `SerializedEvolutionStep::deserialize` -/
 def readHStep : DProg HStep :=
